@@ -642,10 +642,9 @@ int main(int argc, char **argv)
 
     /* space "gradients" (c09_gradients.h): gradient image vs pre-rendered copy of the sampled region */
     gctx_t gc;
-    static const int GCFG[] = { PH_CFG_DEFAULT, PH_CFG_GENERAL };
-    gc.cfgs = GCFG;
+    gc.cfgs = c.cfgs;                                            /* quick: default, general path only; thorough: the same 5 as the main space */
     gc.dims[0] = th ? NGRQ_T : NGRQ_Q; gc.dims[1] = th ? NGXF_T : NGXF_Q; gc.dims[2] = 4; gc.dims[3] = th ? NGS_T : NGS_Q; gc.dims[4] = th ? NGD_T : NGD_Q;
-    gc.dims[5] = th ? NGCTX_T : NGCTX_Q; gc.dims[6] = 2; gc.dims[7] = RC_NOPS; gc.dims[8] = 2;
+    gc.dims[5] = th ? NGCTX_T : NGCTX_Q; gc.dims[6] = 2; gc.dims[7] = RC_NOPS; gc.dims[8] = ncfg;
     uint64_t NG = vf_product(gc.dims, 9);
     int nkind[3] = { 0, 0, 0 }; for (int i = 0; i < gc.dims[4]; i++) nkind[GD[i].kind]++;
     if (!only || !strcmp(only, "gradients")) vf_space_run("gradients", NG, gscen_case, &gc);
@@ -674,16 +673,16 @@ int main(int argc, char **argv)
             l += snprintf(vf->extra_json + l, sizeof vf->extra_json - l, "%s=%llu ", rc_op_name(rc_all_ops[i]), (unsigned long long)cov->g_maxdiff[rc_all_ops[i]]);
         snprintf(vf->extra_json + l, sizeof vf->extra_json - l, "\"");
     }
-    static char bounds[1600];
+    static char bounds[1800];
     snprintf(bounds, sizeof bounds, "53 operators x 3 roles x 2 contents (3x3 of nine 565-representable opaque colours | constant; masks: unified | component-alpha white) x %d context image sets "
              "(translucent / opaque / r5g6b5 / a8 partners, with and without masks) x %d transforms x 4 repeats x %d filters x %d request rectangles (inside, bilinear-covered, nearest-covered only, "
              "partly and wholly outside the 3x3 source, up to 20 pixels wide) x %d configurations = %llu scenarios, up to 11 presentations each; destination 21x8. "
              "Space 'gradients': 53 operators x 2 roles (source, unified-alpha mask) x %d context image sets (a8r8g8b8 / x8r8g8b8 / r5g6b5%s destinations; with and without a8 or solid mask; solid, "
              "opaque and translucent 3x3 sources) x %d gradients (%d linear, %d radial: a<0, a==0 internally tangent, a>0 disjoint / overlapping / equal circles; %d conical) x %d stop sets "
-             "(all opaque | one translucent stop) x 4 repeats x %d transforms x %d request rectangles (up to 20x7, reaching outside the cone resp. outside [0,1]) x 2 configurations "
-             "(default, general path only) = %llu cases, 2-3 presentations each%s",
+             "(all opaque | one translucent stop) x 4 repeats x %d transforms x %d request rectangles (up to 20x7, reaching outside the cone resp. outside [0,1]) x %d configurations "
+             "(default, general path only%s) = %llu cases, 2-3 presentations each%s",
              c.dims[4], c.dims[3], c.dims[1], c.dims[0], ncfg, (unsigned long long)N,
-             gc.dims[5], th ? " / a8" : "", gc.dims[4], nkind[GK_LINEAR], nkind[GK_RADIAL], nkind[GK_CONICAL], gc.dims[3], gc.dims[1], gc.dims[0], (unsigned long long)NG,
+             gc.dims[5], th ? " / a8" : "", gc.dims[4], nkind[GK_LINEAR], nkind[GK_RADIAL], nkind[GK_CONICAL], gc.dims[3], gc.dims[1], gc.dims[0], ncfg, th ? ", whole-operation paths off, SSE2+SSSE3 off, MMX+SSE2+SSSE3 off" : "", (unsigned long long)NG,
              only ? " [C09_ONLY set: only one space was run]" : "");
     vf_bounds = bounds;
     if (!vf_replaying()) printf("C09 coverage: %s\n", vf->extra_json);
